@@ -36,6 +36,7 @@ type Exec struct {
 	maxDepth int
 	Stats    map[string]int
 	cur      *verifyCtx
+	mctx     *mergeCtx
 	// NoOblig suppresses implicit-panic obligations (used while evaluating spec functions: recorded under spec.*)
 	specDepth int
 	// unknown-callee handling
@@ -607,6 +608,21 @@ func (x *Exec) mergeV(c *Term, a, b Value) Value {
 			}
 			return SliceV{Obj: av.Obj, Base: av.Base, Off: Ite(c, av.Off, bv.Off), Len: Ite(c, av.Len, bv.Len), Cap: Ite(c, av.Cap, bv.Cap), Nil: n}
 		}
+		// two different backings that both came out of append on their own path (linear use): the merged slice
+		// gets one new backing whose content is selected by the branch condition
+		if mc := x.mctx; mc != nil && av.Obj != nil && bv.Obj != nil && av.Obj.Owned && bv.Obj.Owned && len(av.Base) == 0 && len(bv.Base) == 0 &&
+			av.Off.IsConst() && av.Off.Val == 0 && bv.Off.IsConst() && bv.Off.Val == 0 && av.Nil == nil && bv.Nil == nil {
+			_, aEntry := mc.entry[av.Obj.ID]
+			_, bEntry := mc.entry[bv.Obj.ID]
+			ca, okA := mc.cur[av.Obj.ID]
+			cb, okB := mc.acc[bv.Obj.ID]
+			if !aEntry && !bEntry && okA && okB {
+				no := x.newObj(av.Obj.Typ, "append#backing")
+				no.Owned = true
+				mc.acc[no.ID] = x.mergeV(c, ca, cb)
+				return SliceV{Obj: no, Off: Const(64, 0), Len: Ite(c, av.Len, bv.Len), Cap: Ite(c, av.Cap, bv.Cap)}
+			}
+		}
 	case StructV:
 		bv := b.(StructV)
 		if len(av.F) > 0 && &av.F[0] == &bv.F[0] {
@@ -618,6 +634,11 @@ func (x *Exec) mergeV(c *Term, a, b Value) Value {
 		}
 		return r
 	case ArrayV:
+		if bt, isT := b.(ArrayT); isT {
+			if at, ok := arrayVtoT(av, bt); ok {
+				return ArrayT{T: Ite(c, at.T, bt.T), Len: bt.Len, Elem: bt.Elem}
+			}
+		}
 		bv := b.(ArrayV)
 		if len(av.E) > 0 && &av.E[0] == &bv.E[0] {
 			return av
@@ -628,6 +649,11 @@ func (x *Exec) mergeV(c *Term, a, b Value) Value {
 		}
 		return r
 	case ArrayT:
+		if bvv, isV := b.(ArrayV); isV {
+			if bt, ok := arrayVtoT(bvv, av); ok {
+				return ArrayT{T: Ite(c, av.T, bt.T), Len: av.Len, Elem: av.Elem}
+			}
+		}
 		bv := b.(ArrayT)
 		return ArrayT{T: Ite(c, av.T, bv.T), Len: av.Len, Elem: av.Elem}
 	case ArrayS:
@@ -657,6 +683,26 @@ func (x *Exec) mergeV(c *Term, a, b Value) Value {
 		}
 	}
 	panic(mergeFail{fmt.Sprintf("mergeV: unsupported %T / %T", a, b)})
+}
+
+// arrayVtoT: an explicit array of scalars as an SMT array of the same shape as like
+func arrayVtoT(a ArrayV, like ArrayT) (ArrayT, bool) {
+	var t *Term
+	for i, e := range a.E {
+		s, ok := e.(Scalar)
+		if !ok || s.T.S != like.T.S.Elem {
+			return ArrayT{}, false
+		}
+		if t == nil {
+			t = ConstArr(like.T.S, s.T)
+			continue
+		}
+		t = Store(t, Const(64, uint64(i)), s.T)
+	}
+	if t == nil {
+		return ArrayT{}, false
+	}
+	return ArrayT{T: t, Len: like.Len, Elem: like.Elem}, true
 }
 
 func sliceNil(s SliceV) *Term {
@@ -894,6 +940,7 @@ func (x *Exec) Call(st *State, fn *ssa.Function, args []Value, bind []Value, dep
 		return x.external(st, fn, args, site)
 	}
 	if c := x.w.contractFor(fn); c != nil && c.Modular && !(x.cur != nil && x.cur.fn == fn && depth == 0) && x.specDepth == 0 &&
+		!(c.ModularSym && x.concreteLens(args)) && // "modular symbolic": the body itself is executed when its loops have concrete bounds
 		!(c.Trusted && x.cur != nil && x.cur.c.Harness != "") { // harness lemmas are the proofs behind trusted summaries: they see the body
 		return x.applyContract(st, fn, c, args, site)
 	}
@@ -913,6 +960,27 @@ func (x *Exec) Call(st *State, fn *ssa.Function, args []Value, bind []Value, dep
 	}
 	outs := x.runRegion(st.clone(), fr, fn.Blocks[0], nil, nil)
 	return x.mergeReturns(st, outs)
+}
+
+// concreteLens: every string / slice argument has a concrete length and every scalar argument a concrete value
+func (x *Exec) concreteLens(args []Value) bool {
+	for _, a := range args {
+		switch v := a.(type) {
+		case StrV:
+			if !x.strLen(v).IsConst() {
+				return false
+			}
+		case SliceV:
+			if !v.Len.IsConst() {
+				return false
+			}
+		case Scalar:
+			if !v.T.IsConst() {
+				return false
+			}
+		}
+	}
+	return true
 }
 
 // mergeReturns merges all normal outcomes of one call into one state
@@ -970,9 +1038,12 @@ func (x *Exec) mergeStates(entry *State, outs []Outcome, val func(Outcome) Value
 		ret = val(acc)
 	}
 	evs := acc.St.Events
+	savedCtx := x.mctx
+	defer func() { x.mctx = savedCtx }()
 	for i := len(outs) - 2; i >= 0; i-- {
 		o := outs[i]
 		c := suffix(o)
+		x.mctx = &mergeCtx{entry: entry.Heap, cur: o.St.Heap, acc: m.Heap}
 		if val != nil {
 			ret = x.mergeV(c, val(o), ret)
 		}
@@ -1002,6 +1073,11 @@ func (x *Exec) mergeStates(entry *State, outs []Outcome, val func(Outcome) Value
 	}
 	m.Cond = append(m.Cond, orResolve(sufs))
 	return Outcome{Kind: outs[0].Kind, St: m, Ret: ret}, true
+}
+
+// mergeCtx gives mergeV access to the heaps being merged (unification of append backings)
+type mergeCtx struct {
+	entry, cur, acc map[int]Value
 }
 
 func mergeEvents(n int, c *Term, a, b []Event) []Event {
@@ -1377,7 +1453,6 @@ func (x *Exec) joinAt(entry *State, fr *Frame, j *ssa.BasicBlock, outs []Outcome
 	return Outcome{Kind: oReached, St: m.St, Fr: nf, Prev: outs[0].Prev, PhiBound: true}, true
 }
 
-
 func (x *Exec) mergeNames(entry *State, nf *Frame, outs []Outcome) {
 	// source-level names assigned in the arms (DebugRef) are merged when every arm has a value
 	n := len(entry.Cond)
@@ -1642,6 +1717,8 @@ func (x *Exec) doCall(st *State, fr *Frame, in *ssa.Call) []Outcome {
 			for i, a := range as {
 				x.record(Oblig{Name: fmt.Sprintf("%s#at.%s.assert%d", fnName(fr.fn), x.site(fr, in), i+1), Cond: e.Formula(a), PC: st.PC(), Kind: "assert", Fn: fnName(fr.fn)})
 			}
+			// vacuity guard: some path reaches this site with a satisfiable path condition
+			x.record(Oblig{Name: fmt.Sprintf("%s#at.%s.cover", fnName(fr.fn), x.site(fr, in)), Cond: False(), PC: st.PC(), Kind: "cover", Fn: fnName(fr.fn)})
 			x.cur.sitesSeen[x.site(fr, in)] = true
 		}
 	}
@@ -2155,7 +2232,6 @@ func (x *Exec) typeAssert(st *State, fr *Frame, in *ssa.TypeAssert) Value {
 }
 
 func (x *Exec) zeroOrRef(t types.Type) Value { return x.zero(t) }
-
 
 // skolem replaces universally quantified variables in positive positions of a goal by fresh constants
 // (to prove ∀k.P(k) it suffices to prove P(k0) for an arbitrary k0).
